@@ -58,7 +58,11 @@ func canonOf(fn *ssa.Function) *canonInfo {
 func ptrFree(s string) string { return strings.TrimPrefix(s, "*") }
 
 // fingerprintOf computes the name-independent fingerprint of a named module function.
-func fingerprintOf(fn *ssa.Function) canonEntry {
+func fingerprintOf(fn *ssa.Function) canonEntry { return fingerprintWith(fn, nil) }
+
+// fingerprintWith: callee names are mapped through alias (raw name -> canonical name) so that a
+// function whose callees were renamed as well still matches once those callees are resolved.
+func fingerprintWith(fn *ssa.Function, alias map[string]string) canonEntry {
 	e := canonEntry{Name: rawFuncName(fn)}
 	sig := fn.Signature
 	if r := sig.Recv(); r != nil {
@@ -113,6 +117,13 @@ func fingerprintOf(fn *ssa.Function) canonEntry {
 							fld = f2
 						}
 						eff["coll:"+fld+"."+methodOf(rawFuncName(v))] = true
+					} else {
+						// a static callee: part of what the function does (hash helpers, setters ...)
+						n := rawFuncName(v)
+						if a, ok := alias[n]; ok {
+							n = a
+						}
+						eff["static:"+n] = true
 					}
 				case *ssa.MakeClosure:
 				default:
@@ -244,15 +255,34 @@ func (w *World) resolveCanon() {
 			}
 		}
 	}
-	// vanished names
+	// vanished names: resolved in rounds, so that a function whose callees were renamed too
+	// matches once those callees have their pinned names back
+	alias := map[string]string{}
+	for round := 0; round < 4; round++ {
+		progress := w.resolveVanished(pinnedBy, cur, fps, alias)
+		if !progress {
+			break
+		}
+		for f := range fps {
+			fps[f] = fingerprintWith(f, alias)
+		}
+	}
+	sort.Strings(w.canonNotes)
+}
+
+func (w *World) resolveVanished(pinnedBy map[string]canonEntry, cur map[string]*ssa.Function, fps map[*ssa.Function]canonEntry, alias map[string]string) bool {
+	progress := false
 	var names []string
 	for n := range pinnedBy {
 		names = append(names, n)
 	}
 	sort.Strings(names)
 	taken := map[*ssa.Function]bool{}
+	for f := range canonByFn {
+		taken[f] = canonByFn[f].name != fps[f].Name && fps[f].Name != ""
+	}
 	for _, n := range names {
-		if cur[n] != nil {
+		if cur[n] != nil || w.canonByName[n] != nil {
 			continue
 		}
 		p := pinnedBy[n]
@@ -275,9 +305,11 @@ func (w *World) resolveCanon() {
 		taken[f] = true
 		canonByFn[f] = &canonInfo{name: n, perm: permOf(p.Params, fps[f].Params)}
 		w.canonByName[n] = f
-		w.canonNotes = append(w.canonNotes, fps[f].Name+" answers to the pinned name "+n+" (identical receiver, types and direct effects)")
+		alias[fps[f].Name] = n
+		progress = true
+		w.canonNotes = append(w.canonNotes, fps[f].Name+" answers to the pinned name "+n+" (identical receiver, types, direct effects and callees)")
 	}
-	sort.Strings(w.canonNotes)
+	return progress
 }
 
 // rawFuncName: the function's own short name, without aliasing.
